@@ -1,1 +1,12 @@
+(* C09 — One misbehaving connection never takes the server down.
+   Statements only; proofs in server/Proofs.v.  Quantification: every configuration (plain or
+   graceful server; h1 / h2 / auto) and every list of environment events of any length: connects
+   of any client kind, cancelled connects, listener loss, make-service failure, signal, settles,
+   requests advanced stage by stage, disconnects, garbage, handler errors. *)
 From HD Require Import common.Base server.Model server.Spec server.Proofs.
+
+(* the model's trace satisfies the executable specification, for all event lists *)
+Theorem c09_monitor : forall g evs, mon_C09 (trace (run g evs)) = true.
+Proof. exact model_mon_C09. Qed.
+Check c09_monitor : forall g evs, mon_C09 (trace (run g evs)) = true.
+Print Assumptions c09_monitor.
